@@ -106,10 +106,11 @@ def check_graph(G, cm, text, viol, cnt):
                 if not ok:
                     viol.append({"cls": "c17.transition-edge-ignores-terminal", "msg": f"transition edge {u}->{v} is not admitted by the terminal descriptors between elements {tu[0]} and {tv[0]}", "text": text})
     have = collections.Counter((u, v, k, round(w, 12), bt) for (u, v, k, w, bt) in nonstatic)
-    for (u, v, k, w, bt) in ref["required"]:
-        if have.get((u, v, k, round(w, 12), bt), 0) < 1:
+    need = collections.Counter((u, v, k, round(w, 12), bt) for (u, v, k, w, bt) in ref["required"])
+    for (u, v, k, w, bt), mult in need.items():
+        if have.get((u, v, k, w, bt), 0) < mult:
             near = [(x[2], x[3], x[4]) for x in nonstatic if x[0] == u and x[1] == v]
-            viol.append({"cls": f"c17.required-edge-missing.{k}", "msg": f"required {k} edge {u}->{v} with weight {w} and order {bt} is missing (edges between these atoms: {near})", "text": text})
+            viol.append({"cls": f"c17.required-edge-missing.{k}", "msg": f"required {k} edge {u}->{v} with weight {w} and order {bt} must occur {mult}x (one per descriptor pair) but occurs {have.get((u, v, k, w, bt), 0)}x (edges between these atoms: {near})", "text": text})
             break
     return ref
 
